@@ -631,10 +631,7 @@ def explore(mk, alphabet, clock_choices, cap_transitions, seed=0, conform_target
     seen = {s0: 0}
     parent = {0: None}
     frontier = [(s0, 0, 0)]
-    alphabet = list(alphabet)
-    if seed:
-        k = seed % len(alphabet)
-        alphabet = alphabet[k:] + alphabet[:k]
+    alphabet = list(alphabet)     # (`seed` deliberately does not reorder it: under a cap the explored prefix would change)
     per_state = len(alphabet) * len(clock_choices)
     conf_every = max(1, (cap_transitions // max(1, conform_target)))
     multi = len(clock_choices) > 1
